@@ -29,14 +29,8 @@ func init() {
 // Loops whose order-insensitivity rests on a reading of the callee, not on a local idiom (I5/I6 and schema bounds).
 // Key: "<function> | range <map>". One reason each.
 var mapRangeJustified = map[string]string{
-	"yang.(*Modules).process | Modules":               "I5 idempotent visit: include(m) links m's imports/includes; links are keyed by the statement, the visited set makes each module's work happen once whatever the order, and the collected errors are sorted at the boundary",
-	"yang.(*Modules).Process | Modules":               "I5/I4: ToEntry(m) is memoised per node and writes entries keyed by the node; GetErrors results are appended to a list sorted at the boundary; FixChoice only rewrites m's own tree",
-	"yang.(*Modules).Process | SubModules":            "I5/I4: as for Modules",
-	"yang.(*typeDictionary).typedefs | dict":          "I5: the slice is only consumed by resolveTypedefs, where td.resolve is memoised per typedef and the errors are sorted at the boundary",
-	"yang.(*typeDictionary).typedefs | inner":         "I5: see outer loop",
 	"yang.(*Modules).FindModuleByNamespace | Modules": "I6 unique search with contradiction check: returns the one module with this namespace and errors if two different modules match",
 	"yang.build | sRequired":                          "schema-bounded: sRequired has at most the keys module/submodule (SCHEMA.REQ), the statement's own key is skipped, and any hit returns the same kind of error",
-	"yang.(*Modules).resolveIdentities | Modules":     "keyed write: each identity is filed under module:name, unique per (module, identity); two revisions of one module that both define an identity collide on that key — a rare case recorded in DESIGN.md §5 row 31",
 	"yang.(*Modules).resolveIdentities | children":    "appends to Identity.Values, which is rebuilt and sorted with a total key right after (ORDER.SORTKEY); base errors are appended to a list sorted at the boundary",
 	"yang.(*Modules).resolveIdentities | closure":     "element-local: rebuilds i.Identity.Values from the element's own direct children through a de-duplicating, then totally sorted, closure",
 	"yang.(*Entry).checkErrors | Dir":                 "I4: calls f on every recorded error; the one caller that collects (GetErrors) de-duplicates and returns the list through errorSort",
@@ -178,7 +172,56 @@ func (c *Ctx) visitsOwnEntry(mr mapRange) bool {
 			}
 		}
 	}
-	return okAll && n > 0
+	if !(okAll && n > 0) {
+		return false
+	}
+	// The visit is order-insensitive only when ToEntry is a cache hit: the first conversion of a module
+	// merges submodules under name-keyed bookkeeping and is NOT order-insensitive (two defects hid
+	// behind this idiom before the condition below was added). So an earlier loop in the same function
+	// must convert every element of the same map in sorted order.
+	warmed := false
+	eachInstr(mr.fn, func(in ssa.Instruction) {
+		call, isC := in.(*ssa.Call)
+		if !isC || !c.returnsSorted(call) || len(call.Call.Args) == 0 {
+			return
+		}
+		if AccessPath(call.Call.Args[0]) != AccessPath(mr.rng.X) {
+			return
+		}
+		// the sorted list is ranged over with ToEntry on its elements, before this loop
+		for _, b := range mr.fn.Blocks {
+			for _, in2 := range b.Instrs {
+				ci, isCI := in2.(ssa.CallInstruction)
+				if !isCI || ci.Common().StaticCallee() == nil || c.FnName(ci.Common().StaticCallee()) != "yang.ToEntry" {
+					continue
+				}
+				if derivesFrom(ci.Common().Args[0], func(y ssa.Value) bool { return y == ssa.Value(call) }) && b.Dominates(mr.rng.Block()) == false && blockReaches(b, mr.rng.Block(), nil) && !mr.inBody(b) {
+					if lh := loopHeaderOf(b); lh != nil && lh.Dominates(mr.rng.Block()) {
+						warmed = true
+					}
+				}
+			}
+		}
+	})
+	return warmed
+}
+
+// returnsSorted: a repo function that collects the values of a map, sorts the keys and returns the values in key order.
+func (c *Ctx) returnsSorted(call *ssa.Call) bool {
+	f := call.Call.StaticCallee()
+	if f == nil || !c.isRepoFn(f) || f.Blocks == nil {
+		return false
+	}
+	hasSort, ranges := false, false
+	eachInstr(f, func(in ssa.Instruction) {
+		if cl, isC := in.(*ssa.Call); isC && (calleeIs(cl, "sort", "Strings") || calleeIs(cl, "sort", "Slice") || calleeIs(cl, "sort", "SliceStable")) {
+			hasSort = true
+		}
+		if _, isR := in.(*ssa.Range); isR {
+			ranges = true
+		}
+	})
+	return hasSort && ranges
 }
 
 func (c *Ctx) mapRangeJustification(mr mapRange, con string) (string, bool) {
@@ -454,6 +497,33 @@ func isVariadicArray(root ssa.Value) bool {
 
 // flowsToSort: the slice web that this append feeds reaches a sort call after the loop, before other element uses.
 func (c *Ctx) flowsToSort(app *ssa.Call, mr mapRange) bool {
+	sorted, returned := c.webSorted(app)
+	if sorted {
+		return true
+	}
+	// returned unsorted: every caller must sort what it gets before using it
+	if returned {
+		node := c.Graph().Nodes[mr.fn]
+		if node == nil || len(node.In) == 0 {
+			return false
+		}
+		for _, e := range node.In {
+			site := e.Site
+			if site == nil || site.Common().StaticCallee() != mr.fn || site.Value() == nil {
+				return false
+			}
+			if s2, _ := c.webSorted(site.Value()); !s2 {
+				return false
+			}
+		}
+		return true
+	}
+	return false
+}
+
+// webSorted grows the set of values that hold the slice v (through phis, appends, conversions, cells) and
+// reports whether one of them is handed to a sort, and whether one of them is returned.
+func (c *Ctx) webSorted(start ssa.Value) (sorted, returned bool) {
 	web := map[ssa.Value]bool{}
 	var grow func(v ssa.Value, d int)
 	grow = func(v ssa.Value, d int) {
@@ -485,11 +555,12 @@ func (c *Ctx) flowsToSort(app *ssa.Call, mr mapRange) bool {
 						}
 					}
 				}
+			case *ssa.Return:
+				returned = true
 			}
 		}
 	}
-	grow(app, 0)
-	sorted := false
+	grow(start, 0)
 	for v := range web {
 		if v.Referrers() == nil {
 			continue
@@ -507,8 +578,7 @@ func (c *Ctx) flowsToSort(app *ssa.Call, mr mapRange) bool {
 			}
 		}
 	}
-	// returned slices: the caller must sort — accept when the function's own name says it returns a sorted view, i.e. it sorts before returning
-	return sorted
+	return sorted, returned
 }
 
 func (c *Ctx) onlyLenUsed(app *ssa.Call) bool {
